@@ -90,11 +90,11 @@ inline bool same(T a, T b)
     return a == b;
 }
 template <class T>
-inline void chk_exact(const T *exp, const T *act, int n, const char *what = "")
+inline void chk_exact(const T *exp, const T *act, int n, const char *what = "", int base = 0)
 {
   for (int i = 0; i < n; ++i)
     if (!same(exp[i], act[i]))
-      PBT_FAIL(what << " component " << i << ": got " << show(act[i]) << " expected " << show(exp[i]));
+      PBT_FAIL(what << " component " << (base + i) << ": got " << show(act[i]) << " expected " << show(exp[i]));
 }
 template <class T, int N, bool A>
 inline void chk_vec(const T *exp, const vec_t<T, N, A> &r, const char *what = "")
